@@ -367,7 +367,7 @@ func (c *Ctx) c03NoFilter(marshal, unmarshal *load.FuncInfo) {
 							if len(x.Rhs) == len(x.Lhs) {
 								if call, ok := ast.Unparen(x.Rhs[i]).(*ast.CallExpr); ok && astx.Builtin(info, call) == "append" {
 									emit = true
-									if se, ok := ast.Unparen(l).(*ast.SelectorExpr); ok && derived[se.Sel.Name] {
+									if se, ok := ast.Unparen(l).(*ast.SelectorExpr); ok && derived[c.P.FieldName(astx.FieldSel(info, se))] {
 										emit = false
 									}
 								}
@@ -375,7 +375,7 @@ func (c *Ctx) c03NoFilter(marshal, unmarshal *load.FuncInfo) {
 							if ie, ok := ast.Unparen(l).(*ast.IndexExpr); ok {
 								if _, isArr := info.TypeOf(ie.X).Underlying().(*types.Array); !isArr {
 									emit = true
-									if se, ok := ast.Unparen(ie.X).(*ast.SelectorExpr); ok && derived[se.Sel.Name] {
+									if se, ok := ast.Unparen(ie.X).(*ast.SelectorExpr); ok && derived[c.P.FieldName(astx.FieldSel(info, se))] {
 										emit = false
 									}
 								}
@@ -572,7 +572,7 @@ func nonEmptyProof(info *types.Info, facts []factT, e ast.Expr) (bool, string) {
 		}
 		x := ast.Unparen(f.Expr)
 		if call, ok := x.(*ast.CallExpr); ok && f.Val {
-			if fn := astx.Callee(info, call); fn != nil && fn.Name() == "IsValidNickname" && len(call.Args) == 1 && astx.Same(info, call.Args[0], e) {
+			if fn := astx.Callee(info, call); fn != nil && fname(fn) == "IsValidNickname" && len(call.Args) == 1 && astx.Same(info, call.Args[0], e) {
 				return true, "IsValidNickname(" + astx.Str(e) + ") holds"
 			}
 		}
@@ -640,7 +640,7 @@ func (c *Ctx) c03NickIndex() {
 			// key must be NickToLower(E)
 			var e ast.Expr
 			if call, ok := ast.Unparen(ie.Index).(*ast.CallExpr); ok && len(call.Args) == 1 {
-				if fn := astx.Callee(info, call); fn != nil && fn.Name() == "NickToLower" {
+				if fn := astx.Callee(info, call); fn != nil && fname(fn) == "NickToLower" {
 					e = call.Args[0]
 				}
 			}
